@@ -833,3 +833,94 @@ def commit_idempotent_rule(ctx, rid, min_instances=2):
             r.fail(f.qualname, f"non-idempotent-commit:{a.lstrip('_')}", f.file, written[a].lineno, f"{ci.name}.Save_Iter", f"`self.{a}` is both written and read by the commit (`{norm_text(written[a])[:80]}`): a second Save_Iter without a solve in between does not leave the history unchanged (buffers are swapped back: the committed history returns to the previous step's)")
         else:
             r.ok(f"{ci.name}.Save_Iter commits {sorted(written)} from {sorted(read)}")
+
+
+def snapshot_rule(ctx, rid, cg=None, scope=None, min_instances=0):
+    """A value computed in __init__ from the state of a collaborator that stays attached to the object (a model built
+    on an elastic law, a simulation built on a model) is a snapshot: when the collaborator's parameters change later the
+    object's other accessors follow (they read the collaborator live) but the snapshot does not, unless the object
+    rebuilds it (it is stored again somewhere) -- the two halves of the object then describe different materials."""
+    from .flow import CallGraph, Locals
+
+    repo = ctx.repo
+    cg = cg or CallGraph(repo)
+    r = ctx.rule(rid, "no value derived in __init__ from the parameters of an attached, mutable collaborator is kept without a rebuild path (the object's live accessors and the snapshot would disagree after a parameter change)", min_instances=min_instances)
+    pcls = repo.cls("EasyFEA.Utilities._params._Parameter")
+
+    def descriptors(ci):
+        out = set()
+        for c in [ci] + repo.subclasses(ci):
+            for k in c.mro:
+                for nm, expr in k.class_attrs.items():
+                    if isinstance(expr, ast.Call):
+                        pc = repo.resolve_name(k.module, dotted(expr.func) or "")
+                        if pc is not None and pcls in getattr(pc, "mro", []):
+                            out.add(nm)
+        return out
+
+    def reads_params(pclass, member, desc, depth=6):
+        """does pclass.<member> (property or method, overrides included) transitively read one of the descriptors?"""
+        seen, todo = set(), list(cg.resolve_self_attr(pclass, member, include_overrides=True))
+        while todo and depth:
+            g = todo.pop()
+            if id(g) in seen or g.cls is None:
+                continue
+            seen.add(id(g))
+            for n in ast.walk(g.node):
+                if isinstance(n, ast.Attribute) and isinstance(n.value, ast.Name) and n.value.id == "self":
+                    if n.attr in desc:
+                        return n.attr
+                    todo.extend(cg.resolve_self_attr(g.cls, n.attr, include_overrides=True))
+        return None
+
+    for ci in sorted(repo.classes.values(), key=lambda c: c.qualname):
+        if scope is not None and not scope(ci):
+            continue
+        init = ci.methods.get("__init__")
+        if init is None or init.cls is not ci:
+            continue
+        L = Locals(init.node)
+        params = {a.arg: a.annotation for a in init.node.args.args + init.node.args.kwonlyargs}
+        stored_params = {}
+        for n in ast.walk(init.node):
+            if isinstance(n, ast.Assign) and isinstance(n.value, ast.Name) and n.value.id in params:
+                for t in n.targets:
+                    if isinstance(t, ast.Attribute) and isinstance(t.value, ast.Name) and t.value.id == "self":
+                        stored_params[n.value.id] = t.attr
+        if not stored_params:
+            continue
+        for n in ast.walk(init.node):
+            if not (isinstance(n, ast.Assign) and len(n.targets) == 1):
+                continue
+            t = n.targets[0]
+            if not (isinstance(t, ast.Attribute) and isinstance(t.value, ast.Name) and t.value.id == "self"):
+                continue
+            rhs = L.expand(n.value)
+            for x in ast.walk(rhs):
+                if not (isinstance(x, ast.Attribute) and isinstance(x.value, ast.Name) and x.value.id in stored_params):
+                    continue
+                p = x.value.id
+                ann = params.get(p)
+                pclass = repo.resolve_name(ci.module, dotted(ann) or "") if ann is not None and dotted(ann) else None
+                if not hasattr(pclass, "mro"):
+                    continue
+                desc = descriptors(pclass)
+                if not desc:
+                    continue
+                via = x.attr if x.attr in desc else (reads_params(pclass, x.attr, desc - {"dim", "thickness"}) or reads_params(pclass, x.attr, desc))
+                if via is None:
+                    continue
+                r.instance(fn=init.qualname)
+                A = ci.mangle(t.attr)
+                rebuilt = False
+                for c in [ci] + repo.subclasses(ci):
+                    for g in list(c.methods.values()) + list(c.setters.values()):
+                        if g.name == "__init__":
+                            continue
+                        if any(a == A for a, _, _ in self_stores(g)):
+                            rebuilt = True
+                if rebuilt:
+                    r.ok(f"{ci.name}.{t.attr}: derived from {p}.{x.attr}, rebuilt outside __init__")
+                else:
+                    r.fail(init.qualname, f"snapshot:{t.attr.lstrip('_')}<-{p}.{x.attr}", init.file, n.lineno, f"{ci.name}.__init__", f"`self.{t.attr}` is computed once from `{p}.{x.attr}` (which depends on the parameter `{via}` of {pclass.name}) and never rebuilt, while `{p}` stays attached as `self.{stored_params[p]}` and is read live elsewhere: after `{p}.{via} = ...` the object mixes the new law with the snapshot of the old one")
+                break
